@@ -584,6 +584,7 @@ func init() {
 			}},
 			{ID: "C01.R4", Doc: "literal cascade: null, int (platform size, int(…)), float (bit size 64 in every configuration), bool — int strictly before float", Run: func(c *Ctx) { cascadeRule(c, "C01.R4") }},
 			{ID: "C01.R5", Doc: "UTF-8 guard rejects no correctly encoded U+FFFD (and no valid rune)", Run: func(c *Ctx) { utf8GuardRule(c, "C01.R5", false, true) }},
+			{ID: "C01.R7", Doc: "the values the parser hands to Add/Set are stored unchanged: parseVal's table and the wrapper constructors (= C12.R1)", Run: func(c *Ctx) { c.R.Floor("C01.R7", runAs(c, "C01.R7", c12R1, nil), 10) }},
 			{ID: "C01.R6", Doc: "the parser machines accept every token sequence the serialiser can emit: per-level inclusion of RFC 8259 (= C03.R1)", Run: func(c *Ctx) { inclusionRule(c, "C01.R6") }},
 		},
 	})
